@@ -68,6 +68,7 @@ import (
 	"encoding/binary"
 	"encoding/json"
 	"fmt"
+	"github.com/privacybydesign/gabi/internal/simhook"
 	"sort"
 	"time"
 
@@ -230,6 +231,7 @@ func (s *SignedAccumulator) UnmarshalVerify(pk *gabikeys.PublicKey) (*Accumulato
 	if err := signed.UnmarshalVerify(pk.ECDSA, s.Data, msg); err != nil {
 		return nil, err
 	}
+	simhook.Yield("SignedAccumulator.UnmarshalVerify:before-store")
 	s.Accumulator = msg
 	return s.Accumulator, nil
 }
@@ -326,6 +328,7 @@ func (update *Update) Product(from uint64) *big.Int {
 	if update.product != nil && update.productFrom == from {
 		return update.product
 	}
+	simhook.Yield("Update.Product:before-store")
 	update.product = big.NewInt(1)
 	update.productFrom = from
 	if len(update.Events) == 0 {
